@@ -225,5 +225,9 @@ def run(ck, F, tier):
     # what commit() does to the position decides where the next picture starts: the helper forms of C14 (commit = drain(0..pos/8); pos %= 8, ...) re-run here
     from . import c14
     from ..report import Scoped
-    c14.e_helper_forms(Scoped(ck, 'C14.'), F)
-    c14.c_read_is_peek_then_skip(Scoped(ck, 'C14.'), F)
+    s14 = Scoped(ck, 'C14.')
+    c14.e_helper_forms(s14, F)
+    c14.c_read_is_peek_then_skip(s14, F)
+    # the callers skip `17 + stuffing` bits after recognize_start_code: it must be a pure look-ahead (C14 B) that reports the stuffing count of the 17-bit window (C14 F)
+    c14.b_lookahead(s14, F)
+    c14.f_start_code(s14, F)
